@@ -29,7 +29,6 @@ import logging
 import selectors
 import time
 import typing
-from contextlib import suppress
 from itertools import count
 
 from .abstract_loop import EventLoop, ExitMainLoop
@@ -180,8 +179,18 @@ class SelectEventLoop(EventLoop):
         with contextlib.suppress(ExitMainLoop):
             self._did_something = True
             while True:
-                with suppress(InterruptedError):
-                    self._loop()
+                self._loop()
+
+    @staticmethod
+    def _select(selector: selectors.BaseSelector, timeout: float | None = None) -> list[selectors.SelectorKey] | None:
+        """selector.select() reporting an interrupted system call as None ("look again").
+
+        Only the wait itself is guarded: an InterruptedError raised by a callback must leave run().
+        """
+        try:
+            return [event for event, _ in selector.select(timeout)]
+        except InterruptedError:
+            return None
 
     def _loop(self) -> None:
         """
@@ -206,13 +215,16 @@ class SelectEventLoop(EventLoop):
                     tm = "idle"
 
                 self.logger.debug(f"Waiting for input: timeout={timeout!r}")
-                ready = [event for event, _ in selector.select(timeout)]
+                ready = self._select(selector, timeout)
 
             elif self._watch_files:
                 self.logger.debug("Waiting for input: timeout")
-                ready = [event for event, _ in selector.select()]
+                ready = self._select(selector)
             else:
                 ready = []
+
+        if ready is None:
+            return
 
         if not ready:
             if tm == "idle":
